@@ -96,7 +96,6 @@ theorem C06_retry_sets_passthrough (H : Hpke) (n : Nat) (st : St) (t : Tr) (r : 
   unfold readRetry
   split
   · simp only [alertViaConn]
-    rw [(connWrite_frame _ _ _).2.2.2.2.1]
   · rename_i o inner st2 hh
     obtain ⟨_, _, _, hproc, _⟩ := handle_inv H _ st2 r true o inner hh
     have h2 : st2.readPT = true := by
